@@ -270,6 +270,7 @@ func ruleC02_rest(c *Ctx) {
 
 	// ---- C02.4 input never written (effect analysis, shared with C18.2) ----
 	R.Rule("C02.4", "the input is never written: no function of package decode writes through a byte-slice/buffer parameter (interprocedural write-effect analysis), and no Destination method can receive a slice or pointer", 30)
+	c.checkEffectsControl() // the same detector must see the write planted in the positive-control package
 	a := c.effects()
 	for _, fn := range a.Funcs() {
 		root := fn
